@@ -8,7 +8,8 @@ TRUSTED = [
     "atomicity of the actions of the interleaving model = the mutex discipline of unseal.go/app.go; supported by the race detector run, not proved about Go",
     "PGP symmetric decryption (x/crypto/openpgp) and PEM/PKCS parsing in front of the model: the configuration record says which passphrase decrypts and whether the plaintext parses",
     "artefact detection in responses by pattern (PEM CERTIFICATE blocks, *-cert-v01@openssh.com lines, compact JWS with a JSON header carrying alg) over body and all headers",
-    "tools/extract: route table of main(); the admin mux (/readyz, /admin/inject) is driven through the handler functions directly",
+    "tools/extract: route table of main(); the admin mux (/readyz, /admin/inject) is driven through the handler functions directly, and once behind real TLS / plain HTTP listeners configured like main()'s admin server",
+    "the auto-unseal path (tryAwsUnseal -> unsealCA) is covered by theorems over unseal_ca only: the cloud secret manager is not reachable offline",
 ]
 
 def corr(ctx, res, name, label, idxfile, prefix):
@@ -27,6 +28,7 @@ def corr(ctx, res, name, label, idxfile, prefix):
 
 def run(ctx):
     ctx.audit("Props.C09", ["c09_sealed_inert", "c09_only_right_pass", "c09_wrong_pass_unchanged", "c09_no_chain_unchanged",
+                            "c09_refused_unchanged", "c09_refused_still_sealed", "c09_accepted_iff", "c09_auto_unseal_refused_unchanged", "c09_auto_unseal_only_right_pass", "c09_old_refused_changes_state_refuted",
                             "c09_once_sequential", "c09_once", "c09_no_half_init", "c09_unseal_is_its_body", "c09_published"])
     gen = ctx.extract()
     files = ["kmd/common.go", "kmd/creds.go", "kmd/c09.go", os.path.join(ctx.work, "gen", "mux_gen.go")]
